@@ -63,6 +63,10 @@ func newHist(res *result) *hist {
 	return h
 }
 
+func (h *hist) commitFaultFired() bool {
+	return h.res.Case.Fault.Kind == "commit" && len(h.all("apply#0", "import-txn-commit injected-failure")) > 0
+}
+
 // runAt returns the run a plugin instance opened at log index idx belongs to.
 func (h *hist) runAt(idx int) *runStart {
 	var r *runStart
@@ -224,7 +228,7 @@ func oracle(res *result) []lab.Violation {
 		}
 	}
 
-	commitFaultFired := res.Case.Fault.Kind == "commit" && len(h.all("apply#0", "import-txn-commit injected-failure")) > 0
+	commitFaultFired := h.commitFaultFired()
 	failKey := func(c *call, clause string) string {
 		if commitFaultFired && c.Tag == "apply#0" {
 			return "failed-apply/" + eng + "/import-not-atomic-see-C15"
@@ -873,6 +877,11 @@ func (h *hist) checkFlow() []lab.Violation {
 					after = &d
 				}
 			}
+		}
+		if h.commitFaultFired() && g[0].Req == 0 {
+			// known (C15): after a failed commit the services hold the new configuration although
+			// nothing was stored; what is "in force" is undefined, reported once by the caller
+			after = nil
 		}
 		w.after = after
 		wins = append(wins, w)
